@@ -484,27 +484,8 @@ pub fn require_counter(rep: &mut Report, name: &str, min: u64) {
     }
 }
 
-thread_local! {
-    static IN_CATCH: std::cell::Cell<u32> = const { std::cell::Cell::new(0) };
-}
-
 pub fn catch<R, F: FnOnce() -> R + std::panic::UnwindSafe>(f: F) -> Result<R, String> {
-    IN_CATCH.with(|c| c.set(c.get() + 1));
-    let r = std::panic::catch_unwind(f);
-    IN_CATCH.with(|c| c.set(c.get() - 1));
-    match r {
-        Ok(r) => Ok(r),
-        Err(e) => {
-            let msg = if let Some(s) = e.downcast_ref::<&str>() {
-                s.to_string()
-            } else if let Some(s) = e.downcast_ref::<String>() {
-                s.clone()
-            } else {
-                "non-string panic payload".to_string()
-            };
-            Err(msg)
-        }
-    }
+    mlc::guard::catch(f)
 }
 
 thread_local! {
@@ -515,7 +496,7 @@ thread_local! {
 pub fn install_quiet_panic_hook() {
     std::panic::set_hook(Box::new(|info| {
         let loc = info.location().map(|l| format!("{}:{}", l.file(), l.line())).unwrap_or_default();
-        if IN_CATCH.with(|c| c.get()) == 0 {
+        if mlc::guard::depth() == 0 {
             // a panic outside the code under test: a harness bug, never hide it
             eprintln!("HARNESS PANIC: {info}");
         }
